@@ -69,4 +69,86 @@ MovesFn(h, kn) ==
     LET t == h[1] IN
     IF Len(h) > 1 THEN <<>> ELSE MapS(FnExprs(t), LAMBDA e : MMutate(1, <<KV("r", e)>>))
 
+---------------------------------------------------------------------------
+(* C18: python string literals in every operator position that takes one, against column data holding the same characters *)
+Pats == <<<<97>>,
+          <<98>>,
+          <<39>>,
+          <<34>>,
+          <<92>>,
+          <<37>>,
+          <<95>>,
+          <<45>>,
+          <<59>>,
+          <<47>>,
+          <<42>>,
+          <<32>>,
+          <<10>>,
+          <<233>>,
+          <<46>>,
+          <<36>>,
+          <<94>>,
+          <<40>>,
+          <<91>>,
+          <<43>>,
+          <<63>>,
+          <<124>>,
+          <<123>>,
+          <<45, 45>>,
+          <<47, 42>>,
+          <<39, 59>>,
+          <<92, 39>>,
+          <<37, 37>>,
+          <<95, 95>>,
+          <<36, 48>>,
+          <<46, 42>>,
+          <<97, 37>>,
+          <<95, 98>>,
+          <<97, 39, 98>>,
+          <<97, 98>>,
+          <<97, 46, 98>>,
+          <<120, 39, 32, 79, 82, 32, 39, 49, 39, 61, 39, 49>>>>
+
+LitStr(v) == [k |-> "lit", ty |-> "str", v |-> v]
+Dash == LitStr(<<45>>)
+
+StrExprs(t) ==
+    LET s == Col(ByName(t)["s"]) IN
+    Flat(MapS(Pats, LAMBDA p :
+        <<Fn2("eq", s, LitStr(p)), Fn2("ne", s, LitStr(p)),
+          Fn2("str_starts_with", s, LitStr(p)), Fn2("str_ends_with", s, LitStr(p)), Fn2("str_contains", s, LitStr(p)),
+          Fn3("str_replace_all", s, LitStr(p), Dash), Fn3("str_replace_all", s, LitStr(<<97>>), LitStr(p)),
+          Fn2("add", s, LitStr(p)), Fn2("add", LitStr(p), s),
+          FnN("is_in", <<s, LitStr(p), LitStr(<<122, 122>>)>>),
+          Case1D(Fn2("eq", s, LitStr(p)), LitStr(p), LitStr(<<110, 111>>)),
+          FnN("coalesce", <<s, LitStr(p)>>),
+          LitStr(p)>>))
+    \o <<Fn1("str_len", s), LitI(-5), LitB(FALSE), LitN, Fn2("eq", Col(ByName(t)["n"]), LitI(-1)), Fn2("add", Col(ByName(t)["n"]), LitI(-3))>>
+
+MovesStr(h, kn) ==
+    IF Len(h) > 1 THEN <<>> ELSE MapS(StrExprs(h[1]), LAMBDA e : MMutate(1, <<KV("r", e)>>))
+
+---------------------------------------------------------------------------
+(* C17: the documented casts on boundary values *)
+LitD  == [k |-> "lit", ty |-> "date", v |-> [y |-> 2021, m |-> 3, d |-> 4]]
+LitDt == [k |-> "lit", ty |-> "datetime", v |-> [y |-> 2021, m |-> 3, d |-> 4, H |-> 5, M |-> 6, S |-> 7, us |-> 80000]]
+CastExprs(t) ==
+    LET c(n) == Col(ByName(t)[n]) IN
+    <<Cast(c("i"), "float"), Cast(c("i"), "str"), Cast(c("i"), "int"),
+      Cast(c("f"), "int"), Cast(c("f"), "str"), Cast(c("f"), "float"),
+      Cast(c("b"), "int"), Cast(c("b"), "float"),
+      Cast(c("sn"), "int"), Cast(c("sn"), "float"), Cast(c("sf"), "float"),
+      Cast(c("d"), "datetime"), Cast(c("d"), "str"), Cast(c("dt"), "date"), Cast(c("dt"), "str"),
+      Cast(Cast(c("dt"), "date"), "str"), Cast(Cast(c("d"), "datetime"), "date"),
+      Cast(Cast(c("i"), "str"), "int"), Cast(Cast(c("f"), "str"), "float"), Cast(Cast(c("f"), "int"), "float"),
+      Cast(Fn2("truediv", c("i"), LitI(4)), "int"), Cast(Fn1("neg", c("f")), "int"), Cast(Fn2("gt", c("i"), LitI(0)), "int"),
+      Cast(LitN, "int"), Cast(LitN, "str"), Cast(LitI(7), "str"), Cast(LitI(-7), "float"),
+      \* constant operands (python literals)
+      Cast(LitDt, "date"), Cast(LitD, "datetime"), Cast(Cast(LitDt, "date"), "str"), Cast(LitDt, "str"), Cast(LitD, "str"),
+      Cast(LitB(TRUE), "int"), Cast([k |-> "lit", ty |-> "float", v |-> [n |-> -7, d |-> 2]], "int"),
+      Cast([k |-> "lit", ty |-> "str", v |-> <<45, 49, 50>>], "int")>>
+
+MovesCast(h, kn) ==
+    IF Len(h) > 1 THEN <<>> ELSE MapS(CastExprs(h[1]), LAMBDA e : MMutate(1, <<KV("r", e)>>))
+
 =============================================================================
